@@ -59,7 +59,10 @@ func (lk AATLoopkup4) Class(g GlyphID) (uint16, bool) {
 		} else if entry.LastGlyph < g {
 			i = h + 1
 		} else {
-			return entry.Values[g-entry.FirstGlyph], true
+			if idx := int(g - entry.FirstGlyph); idx < len(entry.Values) { // the values are empty for a NULL offset
+				return entry.Values[idx], true
+			}
+			return 0, false
 		}
 	}
 	return 0, false
@@ -145,7 +148,10 @@ func (lk AATLoopkupExt4) Class(g GlyphID) (uint32, bool) {
 		} else if entry.LastGlyph < g {
 			i = h + 1
 		} else {
-			return entry.Values[g-entry.FirstGlyph], true
+			if idx := int(g - entry.FirstGlyph); idx < len(entry.Values) { // the values are empty for a NULL offset
+				return entry.Values[idx], true
+			}
+			return 0, false
 		}
 	}
 	return 0, false
